@@ -7,20 +7,10 @@ import json, subprocess, sys
 PROPS = [json.loads(l) for l in open('/verif/properties.jsonl')]
 
 # id -> dict(level, text, note, technique, design_ref, engine)
-CHECKS = {
-    "C04": dict(
-        level="model_checking",
-        text="Exhaustive product over room versions 1-11 (through RoomVersionId::rules()) x 11 event types x every "
-             "subset of each type's content-key universe x top-level key configurations x malformed shapes, run "
-             "through all three real redaction entry points and compared cell by cell with the spec table; "
-             "redact∘redact = redact on every case. The table is finite, so within the key universe this is complete.",
-        note="Trusted: the transcription of the spec redaction table in mc/engine/src/spec/redaction.rs (DESIGN App. A.1); "
-             "values are drawn from 5 JSON kinds; keys outside the listed universe are represented by `foo`.",
-        technique="explicit enumeration of the full (version x type x key-subset) product against a spec table, real code executed on every case",
-        design_ref="§3 C04",
-        engine="mc-common",
-    ),
-}
+import glob, os
+CHECKS = {}
+for f in sorted(glob.glob('/verif/tools/checks.d/C*.json')):
+    CHECKS[os.path.basename(f)[:-5]] = json.load(open(f))
 
 NA = {}
 DEFAULT_NA = "check not built yet (work in progress, see DESIGN.md)"
